@@ -497,6 +497,47 @@ InitC03 ==
           \/ \E x \in OneOfNatArgs : \E op \in {"valid", "ser"} : vec = Vec(s, op, x)
     \/ \E s \in RefScopes : \E x \in RefRawArgs : \E op \in {"unser", "compat"} : vec = Vec(s, op, x)
 
+\* ------------------------------------------------------------------ C01: chained round trip
+\* one vector per (schema, accepted raw value): Unserialize -> Validate -> Serialize -> (real CBOR) ->
+\* Unserialize -> Serialize; exp = the declared outcome of the first step, mod / wire = the model's native
+\* value and wire form
+VecChain(s, x) ==
+    LET u == Unser(s, x) IN
+    [fam |-> "schema", s |-> s, op |-> "chain", arg |-> x, exp |-> Declared(s, "unser", x), mod |-> u,
+     sub |-> <<>>, wire |-> IF u.ok = "yes" THEN Ser(s, u.v) ELSE Rej]
+Accepting(s, x) == Declared(s, "unser", x).ok # "no"
+C01Scalars ==
+    IntSchemas({ <<None, None>>, <<Some(1), Some(2)>>, <<Some(IMin), Some(IMax)>> }, UnitOpts)
+    \cup FloatSchemas({ <<None, None>>, <<Some(2), Some(4)>>, <<None, Some(2 * IMax)>> }, UnitOpts)
+    \cup StringSchemas({ <<None, None>>, <<Some(1), Some(2)>> }, {None, Some("lower")})
+    \cup {BoolS, PatternS, AnyS}
+    \cup {EnumIntS(vs, u) : vs \in { <<1, 2>>, <<IMax, IMin>> }, u \in UnitOpts}
+    \cup {EnumStrS(vs, t) : vs \in { <<"a", "b">>, <<"1", "#empty">>, <<"true", "1.000000", "NaN">> }, t \in BOOLEAN}
+C01Containers ==
+    {ListS(i, bt[1], bt[2], t) : i \in ItemSchemas \cup {ListS(TA, None, None, FALSE), MapS(StringS(None, None, None), TA, None, None, FALSE)},
+                               bt \in { <<None, None>>, <<Some(1), Some(2)>> }, t \in BOOLEAN}
+    \cup {MapS(k, w, None, Some(2), t) : k \in KeySchemas, w \in ValSchemas \cup {ListS(TA, None, None, FALSE), FloatS(None, None, None)}, t \in BOOLEAN}
+C01ContainerRaw(s) ==
+    IF s.kind = "list"
+    THEN (IF s.items.kind \in ContainerKinds
+          THEN {L("any", xs) : xs \in SeqsUpTo({L("any", <<I64(1)>>), L("typed", <<I("uint64", 2), I("uint64", 1)>>), M("any_any", << <<Str("a"), I64(1)>> >>),
+                                                M("string_any", << <<Str("a"), Str("2")>> >>), L("any", <<>>), M("any_any", <<>>)}, 2)}
+          ELSE {L("any", xs) : xs \in SeqsUpTo(ElemCands, 2)} \cup {L("typed", xs) : xs \in {ys \in SeqsUpTo(ElemCands, 2) : Homog(ys)}}
+               \cup {L("bytes", <<I("uint8", 1), I("uint8", 2)>>)})
+    ELSE {M("any_any", ps) : ps \in {q \in GoodPairs : Len(q) <= 2}}
+         \cup {M("string_any", << <<Str("a"), x>> >>) : x \in {L("any", <<I64(1), Str("2")>>), L("any", <<>>), F("float32", 3), I64(IMax), FS("float64", "nan")}}
+InitC01 ==
+    \/ \E s \in C01Scalars : \E x \in ScalarRaw(s) \cup (IF s.kind = "any" THEN AnyRaw ELSE {}) : Accepting(s, x) /\ vec = VecChain(s, x)
+    \/ \E s \in C01Containers : \E x \in C01ContainerRaw(s) : Accepting(s, x) /\ vec = VecChain(s, x)
+    \/ \E s \in Objs1("map", {FALSE}, {FALSE}) \cup Objs2("map", {FALSE}, {FALSE}) \cup Objs1("ptrs", {FALSE}, {FALSE})
+               \cup (IF Deep THEN Objs2("ptrs", {FALSE}, {FALSE}) ELSE {}) :
+          \E x \in ObjRawArgs(s) \cup (IF Len(s.props) = 1 THEN ObjRawExtra(s) ELSE {}) : Accepting(s, x) /\ vec = VecChain(s, x)
+    \/ \E s \in SubObjects : \E x \in SubRawArgs : Accepting(s, x) /\ vec = VecChain(s, x)
+    \/ \E s \in ZooObjs : \E x \in ZooRaw : Accepting(s, x) /\ vec = VecChain(s, x)
+    \/ \E s \in EidObjs : \E x \in ObjRawArgs(s) : Accepting(s, x) /\ vec = VecChain(s, x)
+    \/ \E s \in OneOfs \cup OneOfStruct : \E x \in OneOfRawArgs : Accepting(s, x) /\ vec = VecChain(s, x)
+    \/ \E s \in RefScopes : \E x \in RefRawArgs : Accepting(s, x) /\ vec = VecChain(s, x)
+
 InitBind ==
     \/ vec = [fam |-> "bind", what |-> "strings", toks |-> TokSeq, dec |-> DecSeq, ftok |-> FSeq,
             imax |-> IMax, imin |-> IMin, symlen |-> SymLen, layouts |-> Layouts]
@@ -506,6 +547,7 @@ Init ==
     CASE Mode = "c02" -> InitC02
       [] Mode = "c04" -> InitC04
       [] Mode = "c03" -> InitC03
+      [] Mode = "c01" -> InitC01
       [] Mode = "bind" -> InitBind
 Next == UNCHANGED vec
 Spec == Init /\ [][Next]_vec
@@ -527,6 +569,8 @@ SamePathsOK ==
 \* CASE arm would already have stopped TLC while computing the vector
 TotalOK == IsVec => /\ vec.mod.ok \in {"yes", "no", "maybe"} /\ vec.exp.ok \in {"yes", "no", "maybe"}
                     /\ WF(vec.s) /\ WFV(vec.arg)
-ModelOK == ExactOK /\ SamePathsOK /\ TotalOK
+\* C01 on the model: SchemaDecl!RoundTrip
+RoundTripOK == (IsVec /\ vec.op = "chain") => RoundTrip(vec.s, vec.arg) /\ Refines(vec.mod, vec.exp)
+ModelOK == ExactOK /\ SamePathsOK /\ TotalOK /\ RoundTripOK
 Export == Emit(vec)
 =============================================================================
